@@ -87,6 +87,7 @@ func c05MainLoop(fd *ast.FuncDecl) *ast.ForStmt {
 func factsC05(r *Repo) []Fact {
 	cp := r.Pkg("compose")
 	var out []Fact
+	out = append(out, transCp(r)) // gotrans phase 8: Gen/TransCp.lean and the units it imports (trans_cp.go)
 	run, runFile := cp.Func("runner", "run")
 	where := "compose/" + runFile + ": runner.run"
 
